@@ -260,6 +260,8 @@ def main(argv=None):
         # second thread next to the controlled scheduler.  Progress bars are not part of any property.
         import tqdm
         tqdm.tqdm.monitor_interval = 0
+        import threading
+        tqdm.tqdm.set_lock(threading.RLock())  # not the default cross-process semaphore (shared with forked children)
     except Exception:  # noqa
         pass
     res = dict(prop=a.prop, shard=a.shard, ok=True, subs=[], replays=None)
